@@ -5,6 +5,7 @@ package main
 
 import (
 	"fmt"
+	"go/token"
 	"go/types"
 	"regexp"
 	"sort"
@@ -33,6 +34,7 @@ func (fr *Frame) encodeReturn(x *ssa.Return) {
 		v := fr.val(r)
 		vals = append(vals, TV{fr.coerce(v, ty), ty})
 	}
+	fr.defineGhosts()
 	if !fr.top {
 		fr.rets = append(fr.rets, &retRec{reach: fr.reach, vals: vals, st: fr.st.clone()})
 		return
@@ -135,7 +137,11 @@ func (fr *Frame) encodeBuiltin(x *ssa.Call, b *ssa.Builtin) {
 		v := fr.val(args[0])
 		fr.define(x, "(s-cap "+v.T+")", tyInt)
 	case "append":
+		ord := fr.callOrd["append"]
+		fr.callOrd["append"]++
+		fr.callAssertsPhase(x, "append", ord, false)
 		fr.encodeAppend(x, args[0], args[1])
+		fr.callAssertsPhase(x, "append", ord, true)
 	default:
 		vc.addErr("%s: builtin %s is outside the subset", fr.label, b.Name())
 	}
@@ -190,21 +196,33 @@ func (fr *Frame) encodeAppend(x *ssa.Call, sv, tv ssa.Value) {
 	A2 := vc.fresh(fr.prefix+x.Name()+"_newarr", asort)
 	k := fmt.Sprintf("k$%d", vc.nextBound())
 	if constN >= 0 {
-		A1 = sArr
+		chain := sArr
 		for j := int64(0); j < constN; j++ {
 			idx := "(+ " + slen + " " + fmt.Sprint(j) + ")"
-			A1 = store(A1, idx, sel(tArr, fmt.Sprint(j)))
+			chain = store(chain, idx, sel(tArr, fmt.Sprint(j)))
 			vc.assume(eq(sel(A2, idx), sel(tArr, fmt.Sprint(j))))
 		}
+		A1 = vc.fresh(fr.prefix+x.Name()+"_inarr", asort)
+		vc.assume(eq(A1, chain))
+		// redundant with the array theory, but it puts the read-back terms of the untouched prefix into the term graph
+		vc.assume(fmt.Sprintf("(forall ((%s Int)) (! (=> (and (<= 0 %s) (< %s %s)) (= %s %s)) :pattern (%s) :pattern (%s)))",
+			k, k, k, slen, sel(A1, k), sel(sArr, k), sel(A1, k), sel(sArr, k)))
 	} else {
 		A1 = vc.fresh(fr.prefix+x.Name()+"_inarr", asort)
 		vc.assume(fmt.Sprintf("(forall ((%s Int)) (! (= %s (ite (and (<= %s %s) (< %s %s)) %s %s)) :pattern (%s)))",
 			k, sel(A1, k), slen, k, k, newlen, sel(tArr, "(- "+k+" "+slen+")"), sel(sArr, k), sel(A1, k)))
+		vc.assume(fmt.Sprintf("(forall ((%s Int)) (! (=> (and (<= 0 %s) (< %s %s)) (= %s %s)) :pattern (%s)))",
+			k, k, k, slen, sel(A1, k), sel(sArr, k), sel(sArr, k)))
 		vc.assume(fmt.Sprintf("(forall ((%s Int)) (! (=> (and (<= %s %s) (< %s %s)) (= %s %s)) :pattern (%s)))",
 			k, slen, k, k, newlen, sel(A2, k), sel(tArr, "(- "+k+" "+slen+")"), sel(A2, k)))
+		// the same facts, triggered from the source side (needed to show that every source element occurs in the result)
+		vc.assume(fmt.Sprintf("(forall ((%s Int)) (! (=> (and (<= 0 %s) (< %s %s)) (= %s %s)) :pattern (%s)))",
+			k, k, k, n, sel(A2, "(+ "+slen+" "+k+")"), sel(tArr, k), sel(tArr, k)))
+		vc.assume(fmt.Sprintf("(forall ((%s Int)) (! (=> (and (<= 0 %s) (< %s %s)) (= %s %s)) :pattern (%s)))",
+			k, k, k, n, sel(A1, "(+ "+slen+" "+k+")"), sel(tArr, k), sel(tArr, k)))
 	}
-	vc.assume(fmt.Sprintf("(forall ((%s Int)) (! (=> (and (<= 0 %s) (< %s %s)) (= %s %s)) :pattern (%s)))",
-		k, k, k, slen, sel(A2, k), sel(sArr, k), sel(A2, k)))
+	vc.assume(fmt.Sprintf("(forall ((%s Int)) (! (=> (and (<= 0 %s) (< %s %s)) (= %s %s)) :pattern (%s) :pattern (%s)))",
+		k, k, k, slen, sel(A2, k), sel(sArr, k), sel(A2, k), sel(sArr, k)))
 	capN := vc.fresh(fr.prefix+x.Name()+"_cap", "Int")
 	vc.assume("(<= " + newlen + " " + capN + ")")
 	res := "(ite " + inplace + " (mk-slice " + sarr + " " + newlen + " " + scap + ") (mk-slice " + a2id + " " + newlen + " " + capN + "))"
@@ -214,7 +232,14 @@ func (fr *Frame) encodeAppend(x *ssa.Call, sv, tv ssa.Value) {
 		newM = M
 	}
 	fr.setMem(elemMem(E), srt, newM)
-	fr.define(x, res, ty)
+	rv := fr.define(x, res, ty)
+	// read-back terms of the appended cells (witnesses for existential facts about them)
+	if constN > 0 {
+		cur := fr.getMem(elemMem(E), srt)
+		for j := int64(0); j < constN; j++ {
+			vc.seed(sel(sel(cur, "(s-arr "+rv.T+")"), "(+ "+slen+" "+fmt.Sprint(j)+")"), E.Sort())
+		}
+	}
 }
 
 // ---- external functions: assumed contracts ----
@@ -266,11 +291,52 @@ func (fr *Frame) encodeExternal(x *ssa.Call, callee *ssa.Function) {
 	case "sort.Slice":
 		fr.encodeSortSlice(x)
 	default:
+		if pureExternal(callee) {
+			// side-effect free, total library function: the result is an arbitrary value of its type
+			vc.note("external " + name + ": assumed pure and total; its result is over-approximated by an arbitrary value")
+			t := fr.tyOf(x.Type())
+			if t.K == KTuple {
+				var vs []TV
+				for i, et := range t.Tuple {
+					vs = append(vs, TV{vc.fresh(fmt.Sprintf("%s%s_r%d", fr.prefix, x.Name(), i), et.Sort()), et})
+				}
+				fr.tuples[x] = vs
+			} else if t.K == KSlice || t.K == KRef || t.K == KMap || t.K == KPtr {
+				vc.addErr("%s: external function %s returns a reference type (outside subset)", fr.label, name)
+				fr.declareVal(x, t)
+			} else {
+				fr.declareVal(x, t)
+			}
+			return
+		}
 		vc.addErr("%s: call of external function %s has no assumed contract (outside subset)", fr.label, name)
 		if t := fr.tyOf(x.Type()); t.K != KTuple {
 			fr.declareVal(x, t)
 		}
 	}
+}
+
+// pureExternal: library functions that are total (never panic), effect-free and return value types.
+func pureExternal(c *ssa.Function) bool {
+	if c.Pkg == nil {
+		return false
+	}
+	switch c.Pkg.Pkg.Path() {
+	case "strings":
+		switch c.Name() {
+		case "Repeat", "NewReplacer", "NewReader", "Map", "Fields", "Split", "SplitN", "FieldsFunc", "Builder":
+			return false
+		}
+		return c.Signature.Recv() == nil
+	case "unicode", "unicode/utf8":
+		return c.Signature.Recv() == nil
+	case "strconv":
+		switch c.Name() {
+		case "Itoa", "Quote", "FormatInt", "FormatBool":
+			return true
+		}
+	}
+	return false
 }
 
 var classRe = regexp.MustCompile(`^\[([^\]]+)\]([*+])$`)
@@ -488,21 +554,62 @@ func (fr *Frame) argTVs(x *ssa.Call, callee *ssa.Function) []TV {
 
 // callAsserts emits the contract's call-site assertions for the n-th call of callee.
 func (fr *Frame) callAsserts(x *ssa.Call, callee string, ord int) {
+	fr.callAssertsPhase(x, callee, ord, false)
+}
+
+// callAssertsPhase emits the assert / assume clauses attached to a call: "call" clauses before it, "after" clauses
+// in the state after it (the call's result is named ret).  A proved assert is then assumed (it is a cut: a lemma for
+// the obligations that follow).
+func (fr *Frame) callAssertsPhase(x *ssa.Call, callee string, ord int, after bool) {
 	if fr.contract == nil || !fr.top {
 		return
 	}
 	for _, ca := range fr.contract.CallAsserts {
-		if ca.Callee != callee || ca.Ordinal != ord {
+		if ca.Callee != callee || ca.Ordinal != ord || ca.After != after {
 			continue
 		}
 		vars := map[string]TV{}
 		for k, v := range fr.specVars {
 			vars[k] = v
 		}
-		for k, v := range fr.namesAt(x) {
-			if _, ok := vars[k]; !ok {
+		// loop variables of the enclosing loops (header values); inner loops take precedence
+		var encl []*LoopInfo
+		for _, li := range fr.loops {
+			if li.blocks[x.Block()] && li.phiEnv != nil {
+				encl = append(encl, li)
+			}
+		}
+		sort.Slice(encl, func(i, j int) bool { return len(encl[i].blocks) > len(encl[j].blocks) })
+		for _, li := range encl {
+			for k, v := range li.phiEnv {
+				if k == "$i" {
+					continue
+				}
+				if _, isParam := fr.specVars[k]; isParam && !strings.HasPrefix(k, "$") {
+					continue
+				}
 				vars[k] = v
 			}
+		}
+		if after {
+			if tv, ok := fr.vals[x]; ok {
+				vars["ret"] = tv
+			}
+		}
+		hdr := map[string]TV{}
+		for _, li := range encl {
+			for k, v := range li.phiEnv {
+				hdr[k] = v
+			}
+		}
+		for k, v := range fr.namesAt(x) {
+			if _, isParam := fr.specVars[k]; isParam {
+				continue
+			}
+			if _, isHdr := hdr[k]; isHdr {
+				continue // a loop-carried variable keeps meaning its value at the loop head; the value at the call is "ret" or a local
+			}
+			vars[k] = v
 		}
 		// arguments: arg0.. (varargs are unpacked to the values before interface conversion)
 		i := 0
@@ -525,7 +632,21 @@ func (fr *Frame) callAsserts(x *ssa.Call, callee string, ord int) {
 			fr.vc().addErr("%s:%d: assert: %v", ca.Clause.File, ca.Clause.Line, err)
 			continue
 		}
-		fr.oblige("assert", fmt.Sprintf("assert:%s#%d", callee, ord), ca.Clause.Props, tv.T, ca.Clause.Src, x.Pos(), "")
+		if ca.Assume {
+			fr.vc().note("assumption at the call of " + callee + " in " + fr.label + ": " + ca.Clause.Src)
+			fr.assumeHere(tv.T, "asm")
+			continue
+		}
+		lbl := ca.Clause.Label
+		if lbl != "" {
+			lbl = ":" + lbl
+		}
+		phase := ""
+		if after {
+			phase = "after:"
+		}
+		fr.oblige("assert", fmt.Sprintf("assert:%s%s#%d%s", phase, callee, ord, lbl), ca.Clause.Props, tv.T, ca.Clause.Src, x.Pos(), "")
+		fr.assumeHere(tv.T, "cut")
 	}
 }
 
@@ -568,32 +689,56 @@ func (fr *Frame) varargValues(sl *ssa.Slice) []TV {
 	return out
 }
 
-// namesAt resolves source-level local names to the SSA values visible at an instruction.
+// namesAt resolves source-level local names to the SSA values visible at an instruction: the last binding of the
+// name (in instruction order) in the instruction's block, else in a dominating block.
 func (fr *Frame) namesAt(at ssa.Instruction) map[string]TV {
 	out := map[string]TV{}
 	blk := at.Block()
-	for name, refs := range fr.names {
-		var best *nameRef
-		for i := range refs {
-			r := &refs[i]
-			if r.pos > at.Pos() && r.blk == blk {
+	// instruction indices of the block
+	idx := map[ssa.Instruction]int{}
+	atIdx := -1
+	for i, ins := range blk.Instrs {
+		idx[ins] = i
+		if ins == at {
+			atIdx = i
+		}
+	}
+	type cand struct {
+		v     ssa.Value
+		local bool
+		ord   int
+		pos   token.Pos
+	}
+	best := map[string]*cand{}
+	for _, b := range fr.fn.Blocks {
+		if b != blk && !b.Dominates(blk) {
+			continue
+		}
+		for i, ins := range b.Instrs {
+			d, ok := ins.(*ssa.DebugRef)
+			if !ok || d.Object() == nil {
 				continue
 			}
-			db := defBlock(r.v)
-			if db == nil || !(db.Dominates(blk)) {
+			if b == blk && i > atIdx {
 				continue
 			}
-			if r.blk != blk && !r.blk.Dominates(blk) {
+			db := defBlock(d.X)
+			if db != nil && db != blk && !db.Dominates(blk) {
 				continue
 			}
-			if best == nil || r.pos > best.pos {
-				best = r
+			c := &cand{v: d.X, local: b == blk, ord: i, pos: d.Pos()}
+			name := d.Object().Name()
+			o := best[name]
+			if o == nil || (c.local && !o.local) || (c.local == o.local && c.local && c.ord > o.ord) || (!c.local && !o.local && c.pos > o.pos) {
+				best[name] = c
 			}
 		}
-		if best != nil {
-			if tv, ok := fr.vals[best.v]; ok {
-				out[name] = tv
-			}
+	}
+	for name, c := range best {
+		if tv, ok := fr.vals[c.v]; ok {
+			out[name] = tv
+		} else if k, ok := c.v.(*ssa.Const); ok {
+			out[name] = fr.val(k)
 		}
 	}
 	return out
@@ -609,6 +754,7 @@ func (fr *Frame) modularCall(x *ssa.Call, callee *ssa.Function, ord int) {
 	for i, prm := range callee.Params {
 		vars[prm.Name()] = args[i]
 	}
+	fr.defineGhosts()
 	pre := fr.st
 	tag := fmt.Sprintf("%s#%d", name, ord)
 	fr.callAsserts(x, name, ord)
@@ -757,6 +903,7 @@ func (fr *Frame) modularCall(x *ssa.Call, callee *ssa.Function, ord int) {
 	}
 	fr.assumeHere(and(facts...), "call")
 	fr.setResult(x, results)
+	fr.callAssertsPhase(x, name, ord, true)
 }
 
 func modifiableFieldIn(cc *FuncContract, env *SpecEnv, T, f, r string) string {
@@ -951,6 +1098,13 @@ func (p *Program) instrMod(ins ssa.Instruction, mod map[string]string, _ *Enc) {
 		mod[ctrStruct(T)] = "Int"
 		for _, f := range u.Structs[T].Fields {
 			mod[fieldMem(T, f.Name)] = arraySort("Int", f.Ty.Sort())
+		}
+		for _, g := range p.cs.GhostFields {
+			if g.Struct == T {
+				if ty, err := u.tyOfTypeExpr(g.Ty, p.cs); err == nil {
+					mod[fieldMem(T, g.Name)] = arraySort("Int", ty.Sort())
+				}
+			}
 		}
 	}
 	addArr := func(e *Ty, alloc bool) {
